@@ -87,6 +87,144 @@ def bool_switch_targets(t):
     return None
 
 
+def max_like(ctx, body, e):
+    """operands [x, y] if `e` denotes max(x, y): a call of cmp::max, or a variable assigned x on one side and y on the
+    other side of a comparison of x and y such that each side takes the operand that is not smaller.  Else None."""
+    from . import sym as S_
+    e = S_.strip_refs(e)
+    if not isinstance(e, tuple) or not e:
+        return None
+    if e[0] == "call" and e[1].endswith(("cmp::max", "Ord::max")) and len(e[2]) == 2:
+        return [e[2][0], e[2][1]]
+    if e[0] != "phi":
+        return None
+    sy = ctx.sym(body)
+    cfg = ctx.cfg(body)
+    ds = [d for d in body.defs().get(e[1], [])]
+    if len(ds) != 2 or any(k != "assign" for k, _, _, _ in ds):
+        return None
+    (b1, v1), (b2, v2) = [(bi, sy.rvalue(node["rv"])) for _, bi, _, node in ds]
+    n1, n2 = S_.norm(S_.strip_refs(v1)), S_.norm(S_.strip_refs(v2))
+    for bi, t in body.iter_terms():
+        bt = bool_switch_targets(t)
+        if not bt or not (cfg.dominates(bi, b1) and cfg.dominates(bi, b2)):
+            continue
+        c = S_.strip_refs(sy.operand(t["discr"]))
+        if c[0] != "binop" or c[1] not in ("Lt", "Le", "Gt", "Ge"):
+            continue
+        x, y = S_.norm(S_.strip_refs(c[2])), S_.norm(S_.strip_refs(c[3]))
+        if {x, y} != {n1, n2} or x == y:
+            continue
+        # on the true side of x<y / x<=y the maximum is y; of x>y / x>=y it is x; the false side takes the other
+        big_true = y if c[1] in ("Lt", "Le") else x
+        big_false = x if c[1] in ("Lt", "Le") else y
+        def side_of(b):
+            on_t = b == bt[1] or cfg.dominates(bt[1], b)
+            on_f = b == bt[0] or cfg.dominates(bt[0], b)
+            return "t" if on_t and not on_f else ("f" if on_f and not on_t else None)
+        s1, s2 = side_of(b1), side_of(b2)
+        if {s1, s2} != {"t", "f"}:
+            continue
+        want1 = big_true if s1 == "t" else big_false
+        want2 = big_true if s2 == "t" else big_false
+        if n1 == want1 and n2 == want2:
+            return [v1, v2]
+    return None
+
+
+def len_test(e):
+    """If `e` is a boolean test of a collection's length against a constant — `len(X) <op> c`, `c <op> len(X)`,
+    `X.is_empty()`, or a negation of one — return (X, f) with f(n) the truth value for length n; else None."""
+    from . import sym as S_
+    e = S_.strip_refs(e)
+    if not isinstance(e, tuple) or not e:
+        return None
+    if e[0] == "unop" and str(e[1]).lower() == "not":
+        r = len_test(e[2])
+        if r is None:
+            return None
+        x, f = r
+        return x, (lambda n, f=f: not f(n))
+    if e[0] == "call" and e[1].endswith("::is_empty") and e[2]:
+        return S_.strip_refs(e[2][0]), (lambda n: n == 0)
+    if e[0] == "binop" and e[1] in CMP_OPS:
+        a, b = S_.strip_refs(e[2]), S_.strip_refs(e[3])
+        if a[0] == "call" and a[1].endswith("::len") and a[2] and is_const(b):
+            c = S_.const_value(b)
+            return S_.strip_refs(a[2][0]), (lambda n, op=e[1], c=c: cmp_eval(op, n, c))
+        if b[0] == "call" and b[1].endswith("::len") and b[2] and is_const(a):
+            c = S_.const_value(a)
+            return S_.strip_refs(b[2][0]), (lambda n, op=e[1], c=c: cmp_eval(op, c, n))
+    return None
+
+
+def lexical_unsafe_blocks(repo):
+    """number of `unsafe { .. }` blocks in the non-test sources of the core crate (comments, string and char literals
+    and `#[cfg(test)] mod` bodies removed).  Only used as a vacuity guard: every such block contains at least one unsafe
+    operation, so an analysis that sees fewer unsafe operations than there are blocks has lost sight of some."""
+    import os, re
+    src = os.path.join(repo, "rust", "core", "src")
+    total = 0
+    per_file = {}
+    for dp, dn, fn in os.walk(src):
+        for f in fn:
+            if not f.endswith(".rs"):
+                continue
+            with open(os.path.join(dp, f), encoding="utf-8", errors="replace") as fh:
+                s = fh.read()
+            out = []
+            i, n = 0, len(s)
+            while i < n:
+                c = s[i]
+                if s.startswith("//", i):
+                    j = s.find("\n", i)
+                    i = n if j < 0 else j
+                elif s.startswith("/*", i):
+                    depth, i = 1, i + 2
+                    while i < n and depth:
+                        if s.startswith("/*", i):
+                            depth += 1; i += 2
+                        elif s.startswith("*/", i):
+                            depth -= 1; i += 2
+                        else:
+                            i += 1
+                elif c == '"':
+                    i += 1
+                    while i < n and s[i] != '"':
+                        i += 2 if s[i] == "\\" else 1
+                    i += 1
+                    out.append('""')
+                elif c == "r" and re.match(r'r#*"', s[i:i + 8]):
+                    m = re.match(r'r(#*)"', s[i:i + 8])
+                    end = s.find('"' + m.group(1), i + len(m.group(0)))
+                    i = n if end < 0 else end + 1 + len(m.group(1))
+                    out.append('""')
+                elif c == "'" and re.match(r"'(\\.[^']*|[^'\\])'", s[i:i + 12]):
+                    m = re.match(r"'(\\.[^']*|[^'\\])'", s[i:i + 12])
+                    i += len(m.group(0))
+                    out.append("' '")
+                else:
+                    out.append(c)
+                    i += 1
+            t = "".join(out)
+            # drop #[cfg(test)] mod bodies
+            while True:
+                m = re.search(r"#\[cfg\(test\)\]\s*(pub\s+)?mod\s+\w+\s*\{", t)
+                if not m:
+                    break
+                depth, k = 1, m.end()
+                while k < len(t) and depth:
+                    depth += t[k] == "{"
+                    depth -= t[k] == "}"
+                    k += 1
+                t = t[:m.start()] + t[k:]
+            c_ = len(re.findall(r"\bunsafe\s*\{", t))
+            if c_:
+                per_file[os.path.relpath(os.path.join(dp, f), src)] = c_
+            total += c_
+    return total, per_file
+
+
 def frac(x):
     """exact rational value of a decimal literal / python number"""
     if isinstance(x, bool):
